@@ -21,12 +21,12 @@ Definition wit_leak : list op := [new0 1; ORef 2; ORestack ChRaise 2; OUnref 1; 
 Definition wit_orphan_abort : list op := [new0 1; new0 2; OClose 2; OUnref 2].
 (* #21: the drag source is destroyed, then the next drag event ("W n0.0 b1.m.10.1.- mp md c1 u1 md") *)
 Definition wit_drag : list op :=
-  [new0 1; OBind 2 0 false 16 true []; OMouse MPress; OMouse MDrag; OClose 2; OUnref 2; OMouse MDrag].
+  [new0 1; OBind 2 0 HMouse 16 true []; OMouse MPress; OMouse MDrag; OClose 2; OUnref 2; OMouse MDrag].
 (* a key handler destroys the sibling that is offered the event next ("W n0.0 n0.0 b2.k.0.0.c1,u1 k") *)
 Definition wit_sibling : list op :=
-  [new0 1; new0 1; OBind 3 0 true 0 false [OClose 2; OUnref 2]; OKey].
+  [new0 1; new0 1; OBind 3 0 HKey 0 false [OClose 2; OUnref 2]; OKey].
 (* #21: a drag with no press before it reads the press position that was never stored ("W b0.m.ff.0.- md") *)
-Definition wit_uninit : list op := [OBind 1 0 false 255 false []; OMouse MDrag].
+Definition wit_uninit : list op := [OBind 1 0 HMouse 255 false []; OMouse MDrag].
 
 Definition outcome (v : verdict) : option (fault * nat) * bool * bool * bool :=
   match v with
@@ -34,6 +34,24 @@ Definition outcome (v : verdict) : option (fault * nat) * bool * bool * bool :=
   | VFault f k h => (Some (f, k), false, uninit_seen h, wf_client (rev (tr h)))
   | VNoFuel _ => (None, false, false, false)
   end.
+
+(* C08-7: an expose / focus / geomchange handler closes its own window and drops the last reference to it *)
+Definition wit_expose_self : list op := [new0 1; OBind 2 0 HExpose 0 false [OClose 2; OUnref 2]; OExpose 2; OFlush 1; OUnref 1].
+Definition wit_focus_self : list op := [new0 1; OBind 2 0 HFocus 0 false [OClose 2; OUnref 2]; OFocus 2; OUnref 1].
+Definition wit_geom_self : list op :=
+  [new0 1; OBind 2 0 HGeom 0 false [OClose 2; OUnref 2]; OBind 2 1 HGeom 0 false []; OGeom 2; OUnref 1].
+(* C08-9: the root, told that a child takes the focus, closes and releases that child; then a flush places the cursor *)
+Definition wit_focus_notify : list op :=
+  [ONotify 1 true; OBind 1 0 HFocus 0 false [OUnbind 1 0; OClose 2; OUnref 2]; new0 1; OFocus 2; OFlush 1; OUnref 1].
+(* C08-12: an expose handler drops the last reference to the root during the flush *)
+Definition wit_flush_root : list op := [OBind 1 0 HExpose 0 false [OUnref 1]; OExpose 1; OFlush 1].
+(* C08-14: reposition looks at the window after its geomchange handler has released it *)
+Definition wit_move : list op := [new0 1; OBind 2 0 HGeom 0 false [OUnref 2]; OMove 2; OUnref 1].
+(* C08-15: the terminal is resized; a geomchange handler of the root drops the last reference to it *)
+Definition wit_resize : list op := [OBind 1 0 HGeom 0 false [OUnref 1]; OResize].
+(* C08-16: the window that loses the focus closes the window that is taking it *)
+Definition wit_focus_close : list op :=
+  [new0 1; new0 2; OFocus 3; OBind 3 0 HFocus 0 false [OClose 2]; OFocus 2; OUnref 3; OUnref 2; OUnref 1].
 
 (* pinned code: (fault, heap empty at the end, a never-written field was read, the calls made were well-formed) *)
 Lemma pinned_destroy : outcome (run_script pinned fuel40 wit_destroy) = (Some (UAF, 1%nat), false, false, true).
@@ -54,6 +72,23 @@ Proof. vm_compute. reflexivity. Qed.
 Lemma pinned_uninit : outcome (run_script pinned fuel40 wit_uninit) = (None, false, true, true).
 Proof. vm_compute. reflexivity. Qed.
 
+Lemma pinned_expose_self : outcome (run_script pinned fuel40 wit_expose_self) = (Some (UAF, 3%nat), false, false, true).
+Proof. vm_compute. reflexivity. Qed.
+Lemma pinned_focus_self : outcome (run_script pinned fuel40 wit_focus_self) = (Some (UAF, 2%nat), false, false, true).
+Proof. vm_compute. reflexivity. Qed.
+Lemma pinned_geom_self : outcome (run_script pinned fuel40 wit_geom_self) = (Some (UAF, 3%nat), false, false, true).
+Proof. vm_compute. reflexivity. Qed.
+Lemma pinned_focus_notify : outcome (run_script pinned fuel40 wit_focus_notify) = (Some (UAF, 3%nat), false, false, true).
+Proof. vm_compute. reflexivity. Qed.
+Lemma pinned_flush_root : outcome (run_script pinned fuel40 wit_flush_root) = (Some (UAF, 2%nat), false, false, true).
+Proof. vm_compute. reflexivity. Qed.
+Lemma pinned_move : outcome (run_script pinned fuel40 wit_move) = (Some (UAF, 2%nat), false, false, true).
+Proof. vm_compute. reflexivity. Qed.
+Lemma pinned_resize : outcome (run_script pinned fuel40 wit_resize) = (Some (UAF, 1%nat), false, false, true).
+Proof. vm_compute. reflexivity. Qed.
+Lemma pinned_focus_close : outcome (run_script pinned fuel40 wit_focus_close) = (Some (Abort, 4%nat), false, false, true).
+Proof. vm_compute. reflexivity. Qed.
+
 (* repaired code, same histories: no fault; where every reference was dropped the heap is empty *)
 Lemma fixed_destroy : outcome (run_script fixed fuel40 wit_destroy) = (None, true, false, true).
 Proof. vm_compute. reflexivity. Qed.
@@ -72,6 +107,12 @@ Proof. vm_compute. reflexivity. Qed.
 Lemma fixed_uninit : outcome (run_script fixed fuel40 wit_uninit) = (None, false, false, true).
 Proof. vm_compute. reflexivity. Qed.
 
+Lemma fixed_handlers_efg :
+  map (fun l => outcome (run_script fixed fuel40 l))
+      [wit_expose_self; wit_focus_self; wit_geom_self; wit_focus_notify; wit_flush_root; wit_move; wit_resize; wit_focus_close]
+  = repeat (None, true, false, true) 8.
+Proof. vm_compute. reflexivity. Qed.
+
 (* copy-out on the pinned code: an exactly fitting buffer is overrun by the terminating NUL *)
 Lemma pinned_copy : get_span_text true (CText [97]) [170] = None.
 Proof. vm_compute. reflexivity. Qed.
@@ -85,8 +126,8 @@ Proof. split; vm_compute; reflexivity. Qed.
    taken and dropped, restack requests of all four kinds left pending, flushed, closed, released *)
 Definition wit_nontrivial : list op :=
   [new0 1; new0 2; ONew 1 false true false false; ORef 3; ORestack ChRaise 4; ORestack ChLowerBack 2;
-   ORestack ChLower 2; ORestack ChRaiseFront 4; OFocus 3; OFlush 1; OHide 2; OShow 2; ORestack ChRaise 3;
-   OClose 2; OUnref 2; OFlush 1; OUnref 3; OUnref 4; OUnref 1].
+   ORestack ChLower 2; ORestack ChRaiseFront 4; OHide 2; OShow 2; ORestack ChRaise 3; OTouch 3 (Some 2%positive) true; OExpose 3;
+   OClose 2; OUnref 2; OUnref 3; OUnref 4; OUnref 1].
 Lemma nontrivial_ok :
   client_okb fuel40 wit_nontrivial (heap0 fixed) = true /\ wf_client wit_nontrivial = true /\
   outcome (run_script fixed fuel40 wit_nontrivial) = (None, true, false, true).
